@@ -325,14 +325,14 @@ def _sim_open(file, mode="r", buffering=-1, encoding=None, errors=None, newline=
 def _sim_time():
     s = _STATE["sched"]
     if s is not None and s.current is not None:
-        return _STATE["clock"].now / 1e9
+        return (_STATE["clock"].now + _STATE.get("proc_skew", 0)) / 1e9
     return _real["time.time"]()
 
 
 def _sim_time_ns():
     s = _STATE["sched"]
     if s is not None and s.current is not None:
-        return _STATE["clock"].now
+        return (_STATE["clock"].now + _STATE.get("proc_skew", 0))
     return _real["time.time_ns"]()
 
 
@@ -391,13 +391,13 @@ def _install_datetime():
         @classmethod
         def now(cls, tz=None):
             if _active():
-                return real_dt.fromtimestamp(_STATE["clock"].now / 1e9, tz)
+                return real_dt.fromtimestamp((_STATE["clock"].now + _STATE.get("proc_skew", 0)) / 1e9, tz)
             return real_dt.now(tz)
 
         @classmethod
         def utcnow(cls):
             if _active():
-                return real_dt.fromtimestamp(_STATE["clock"].now / 1e9, _dt.timezone.utc).replace(tzinfo=None)
+                return real_dt.fromtimestamp((_STATE["clock"].now + _STATE.get("proc_skew", 0)) / 1e9, _dt.timezone.utc).replace(tzinfo=None)
             return real_dt.now(_dt.timezone.utc).replace(tzinfo=None)
 
         @classmethod
@@ -408,7 +408,7 @@ def _install_datetime():
         @classmethod
         def today(cls):
             if _active():
-                return real_dt.fromtimestamp(_STATE["clock"].now / 1e9).date()
+                return real_dt.fromtimestamp((_STATE["clock"].now + _STATE.get("proc_skew", 0)) / 1e9).date()
             return real_date.today()
 
     SimDateTime.__name__ = SimDateTime.__qualname__ = "datetime"
@@ -446,13 +446,13 @@ def patch_datetime_in(module):
 
 def _sim_localtime(secs=None):
     if secs is None and _active():
-        secs = _STATE["clock"].now / 1e9
+        secs = (_STATE["clock"].now + _STATE.get("proc_skew", 0)) / 1e9
     return _real["time.localtime"](secs) if secs is not None else _real["time.localtime"]()
 
 
 def _sim_gmtime(secs=None):
     if secs is None and _active():
-        secs = _STATE["clock"].now / 1e9
+        secs = (_STATE["clock"].now + _STATE.get("proc_skew", 0)) / 1e9
     return _real["time.gmtime"](secs) if secs is not None else _real["time.gmtime"]()
 
 
@@ -496,6 +496,7 @@ def bind(fs, sched, clock, entropy_seed=0, cwd=None):
     _STATE["clock"] = clock
     _STATE["entropy"] = _random.Random(entropy_seed)
     _STATE["incarnation"] = 0
+    _STATE["proc_skew"] = 0
     _random.seed(entropy_seed)
     try:
         import tempfile
